@@ -3,7 +3,7 @@
    MODEL of, as they are:
      ford/external_project.py  obj2dict, dump_modules           -> [export_ent], [export]
                                dict2obj                          -> [import_node], [import_fuel], [import_val]
-                               load_external_modules             -> [load], [load_json]
+                               load_external_modules             -> [load], [load_json], [load_all], [CAUGHT]
                                ATTRIBUTES, ENTITIES              -> [ATTRIBUTES], [entity_class]
      ford/sourceform.py        FortranBase.get_dir / get_url / anchor for the entities a module contains
                                (idents come from the NameSelector model Out/Names.v)  -> [own_url]
@@ -41,7 +41,8 @@ Definition truthy (j : json) : bool :=
   end.
 
 Inductive exn :=
-| KeyError | TypeError | AttributeError | ValueError | FileNotFoundError | UnicodeDecodeError | OutOfFuel.
+| KeyError | TypeError | AttributeError | ValueError | FileNotFoundError | UnicodeDecodeError
+| JSONDecodeError | URLError | OutOfFuel.
 
 Inductive res (A : Type) := Ok (a : A) | Err (e : exn).
 Arguments Ok {A} a.
@@ -509,16 +510,16 @@ Definition load_json (b : base) (j : json) : res (list xval) :=
 (* what reading modules.json gave *)
 Inductive local_fetch := LMissing | LUndecodable | LBadJson | LJson (j : json).
 Inductive remote_fetch := RUrlError | RUndecodable | RBadJson | RJson (j : json).
-(* the `external` setting and the state of the world: an absolute local path, a relative local
-   path (resolved against the project directory to [dir]), a URL *)
+(* the `external` setting and the state of the world: a local path (absolute, or relative and
+   resolved against the project directory; [dir] is the resulting pathlib.Path), or a URL *)
 Inductive source :=
-| SLocalAbs (path : str)
 | SLocal (dir : str) (f : local_fetch)
 | SRemote (url : str) (f : remote_fetch).
 
 Inductive outcome :=
 | OLoaded (objs : list xval)      (* the run goes on with these external entities *)
-| OContained                      (* "Could not open external URL": the run goes on without them *)
+| OContained                      (* "Could not open external URL": the run goes on, the project lists
+                                     are as they were before this description was read *)
 | ORaised (e : exn).              (* the exception leaves load_external_modules: the run dies *)
 
 Definition with_slash (u : str) : str :=
@@ -527,21 +528,42 @@ Definition with_slash (u : str) : str :=
   | [] => u ++ slash_s
   end.
 
+(* the classes named in the except clause around the whole loading of one description *)
+Definition CAUGHT : list str :=
+  [s "URLError"; s "OSError"; s "ValueError"; s "KeyError"; s "TypeError"; s "AttributeError"].
+(* the exception class and the built-in classes it derives from *)
+Definition exn_classes (e : exn) : list str :=
+  match e with
+  | KeyError => [s "KeyError"] | TypeError => [s "TypeError"] | AttributeError => [s "AttributeError"]
+  | ValueError => [s "ValueError"]
+  | FileNotFoundError => [s "FileNotFoundError"; s "OSError"]
+  | UnicodeDecodeError => [s "UnicodeDecodeError"; s "ValueError"]
+  | JSONDecodeError => [s "json.JSONDecodeError"; s "ValueError"]
+  | URLError => [s "URLError"; s "OSError"]
+  | OutOfFuel => []                                 (* not a Python exception: the model ran out of fuel *)
+  end.
+Definition caught (e : exn) : bool := existsb (fun c => str_in c CAUGHT) (exn_classes e).
+
+Definition of_exn (e : exn) : outcome := if caught e then OContained else ORaised e.
 Definition of_res (r : res (list xval)) : outcome :=
-  match r with Ok l => OLoaded l | Err e => ORaised e end.
+  match r with Ok l => OLoaded l | Err e => of_exn e end.
 
 Definition load (src : source) : outcome :=
   match src with
-  | SLocalAbs _ => ORaised TypeError               (* str / "modules.json" *)
-  | SLocal d LMissing => ORaised FileNotFoundError
-  | SLocal d LUndecodable => ORaised UnicodeDecodeError
-  | SLocal d LBadJson => OContained
+  | SLocal d LMissing => of_exn FileNotFoundError
+  | SLocal d LUndecodable => of_exn UnicodeDecodeError
+  | SLocal d LBadJson => of_exn JSONDecodeError
   | SLocal d (LJson j) => of_res (load_json (BLocal d) j)
-  | SRemote u RUrlError => OContained
-  | SRemote u RUndecodable => ORaised UnicodeDecodeError
-  | SRemote u RBadJson => OContained
+  | SRemote u RUrlError => of_exn URLError
+  | SRemote u RUndecodable => of_exn UnicodeDecodeError
+  | SRemote u RBadJson => of_exn JSONDecodeError
   | SRemote u (RJson j) => of_res (load_json (BRemote (with_slash u)) j)
   end.
+
+(* several external projects, in the order of the `external` setting: what the project lists hold
+   afterwards (a description that fails contributes nothing, the others are untouched) *)
+Definition load_all (srcs : list source) : list xval :=
+  flat_map (fun src => match load src with OLoaded l => l | _ => [] end) srcs.
 
 (* ------------------------------------------------------------------ the project lists of B *)
 
